@@ -216,7 +216,9 @@ func genSeqOps0(r *rand.Rand, nKeys, n int, mutate bool) []BEOp {
 			ops = append(ops, BEOp{Kind: "walk"})
 		case x < 81:
 			// Walk with a failing callback / Dump into a failing writer (then the sequence goes on)
-			if chance(r, 0.5) {
+			if chance(r, 0.3) {
+				ops = append(ops, BEOp{Kind: "walkDel", SleepNs: int64(r.IntN(1 << 16))})
+			} else if chance(r, 0.5) {
 				ops = append(ops, BEOp{Kind: "walkErr", SleepNs: int64(r.IntN(3))})
 			} else {
 				ops = append(ops, BEOp{Kind: "dumpErr", SleepNs: int64(r.IntN(200))})
